@@ -3,6 +3,7 @@ import Holpy.C16.SimplexInv
 import Holpy.C16.SimplexCheck3
 import Holpy.C16.SimplexHandle
 import Holpy.C16.SimplexRun
+import Holpy.C16.SimplexBBProofs
 /-
 C16 — property theorems about the model of `prover/simplex.py` (`Simplex`).  The model
 (`SimplexModel.lean`) is tied to the code by the step-by-step correspondence stream of
@@ -154,20 +155,40 @@ example : InputOK 100 exUnsat ∧ InputOK 100 exSat ∧ InputOK 100 exConflict :
     simp [exUnsat, exSat, exConflict] at hq
     rcases hq with rfl | rfl | rfl <;> simp [DistinctVars, varsOf]
 
-/-- Partial statement for `branch_and_bound`: every node of its search runs
-`Simplex(); add_ineqs(new_bound, *parent.original); handle_assertion()`, i.e. `run` on a list `qs'`
-that contains the original constraints `qs`; if that run ends without exception, its `mapping`
-(what `branch_and_bound` returns once `all_integer()` holds) satisfies every original constraint.
-MISSING: the search loop itself (queue, `all_integer`, `find_not_int_var`, the bare `except:` that
-turns any error of a node into "infeasible") is not modelled, so nothing is proved about the answer
-"no integer solution" (`bb_unsat_sound` is absent; that verdict is judged per run by Z3 / brute force). -/
-theorem bb_sat_sound_partial (N fuel : Nat) (qs qs' : List Ineq) (hin : InputOK N qs') (hsub : ∀ q ∈ qs, q ∈ qs')
-    (s' : SState) (tr : List SState) (h : run fuel qs' = (.sat s', tr)) :
-    ∀ q ∈ qs, (∀ x, q.jars ≠ [(x, 0)]) → IneqHolds q s'.mapping :=
-  fun q hq hnz => run_sat N fuel qs' hin s' tr h q (hsub q hq) hnz
+/-- The two children of a `branch_and_bound` node, `x ≤ ⌊v⌋` and `x ≥ ⌈v⌉`, cover every integer value of `x`. -/
+theorem branch_covers_integers (z : Int) (v : ℚ) : z ≤ floorQ v ∨ ceilQ v ≤ z :=
+  branch_covers z v
 
--- the node "x ≤ 0" below the root 2·x ≥ 1, 2·x ≤ 3 is infeasible, the node "x ≥ 1" is feasible (with x = 1)
-example : outcomeTag (run 20 (⟨.ge, [(100, 1)], 1⟩ :: [⟨.ge, [(100, 2)], 1⟩, ⟨.le, [(100, 2)], 3⟩])).1 = 0 ∧
-    outcomeTag (run 20 (⟨.le, [(100, 1)], 0⟩ :: [⟨.ge, [(100, 2)], 1⟩, ⟨.le, [(100, 2)], 3⟩])).1 ≠ 0 := by decide +kernel
+/-- `branch_and_bound` returning a mapping (any fuel, any node budget, whatever variables
+`find_not_int_var` picked): the mapping satisfies every original constraint (except the ignored form
+`0·x ⋈ b`) and gives every input variable an integer value. -/
+theorem bb_sat_sound (N fuel budget : Nat) (qs : List Ineq) (picks : List Var) (hin : InputOK N qs) (s : SState) (n : Nat)
+    (h : branchAndBound fuel budget qs picks = (.found s, n)) :
+    (∀ q ∈ qs, (∀ x, q.jars ≠ [(x, 0)]) → IneqHolds q s.mapping) ∧ ∀ x ∈ inputVars qs, (s.mapping x).den = 1 :=
+  bbLoop_found N fuel qs budget [qs] picks 0 n s (by
+    intro node hnode; simp only [List.mem_singleton] at hnode; subst hnode; exact ⟨hin, fun q hq => hq⟩) h
+
+/-- `branch_and_bound` ending with an empty queue ("no integer solution", it returns the tree): the
+constraints have no integer solution.  PARTIAL: only for runs of the model that end this way, i.e.
+no node's `check()` ran out of fuel and the node budget was not exhausted (the Python loop has no
+budget and need not terminate); and the bare `except:` is modelled as "UNSATException /
+AssertUpper/LowerException close the node" — any other exception inside a node (none occurs in the
+generated systems; the harness counts them) would also close it in the Python and is not covered. -/
+theorem bb_unsat_sound_partial (N fuel budget : Nat) (qs : List Ineq) (picks : List Var) (hin : InputOK N qs) (n : Nat)
+    (h : branchAndBound fuel budget qs picks = (.none, n)) :
+    ¬ ∃ w : Var → ℚ, (∀ x, ∃ z : Int, w x = (z : ℚ)) ∧ ∀ q ∈ qs, IneqHolds q w :=
+  bbLoop_none N fuel budget [qs] picks 0 n (by
+    intro node hnode; simp only [List.mem_singleton] at hnode; subst hnode; exact hin) h qs (List.mem_singleton.mpr rfl)
+
+def bbTag : BBResult → Nat
+  | .found _ => 0
+  | .none => 1
+  | .gaveUp => 2
+  | .fuel => 3
+  | .badPick => 4
+
+-- 1 ≤ 2x ≤ 3 has the integer solution x = 1 (found after one branching); 2x = 1 has none (both children closed)
+example : bbTag (branchAndBound 20 10 [⟨.ge, [(100, 2)], 1⟩, ⟨.le, [(100, 2)], 3⟩] [100]).1 = 0 ∧
+    bbTag (branchAndBound 20 10 [⟨.ge, [(100, 2)], 1⟩, ⟨.le, [(100, 2)], 1⟩] [100]).1 = 1 := by decide +kernel
 
 end Holpy.C16
